@@ -77,6 +77,14 @@ class _Return(Exception):
         self.value = value
 
 
+class _Break(Exception):
+    pass
+
+
+class _Continue(Exception):
+    pass
+
+
 class _NeedDecision(Exception):
     pass
 
@@ -633,9 +641,20 @@ class GenWalker:
             if isinstance(it, (list, tuple)):
                 for item in list(it):
                     self.bind(s.target, item, env)
-                    self.block(s.body, env)
+                    try:
+                        self.block(s.body, env)
+                    except _Continue:
+                        continue
+                    except _Break:
+                        break
+                else:
+                    self.block(s.orelse, env)
                 return
             raise AnalysisError(f"{self.construct}: for over non-enumerable {ast.unparse(s.iter)}")
+        if isinstance(s, ast.Continue):
+            raise _Continue
+        if isinstance(s, ast.Break):
+            raise _Break
         if isinstance(s, ast.Return):
             raise _Return(self.ev(s.value, env) if s.value else None)
         if isinstance(s, (ast.Assert, ast.Pass)):
